@@ -142,7 +142,10 @@ type argv struct {
 	// goTyped: a Go slice of a concrete element type from the data ([]int, []string)
 	goTyped bool
 	neg     bool // negative infinity
+	withNil bool // a map with an entry whose value is nil
 }
+
+var c11MapNil = map[string]interface{}{"k": 3.0, "z": nil}
 
 var c11Map = map[string]interface{}{"k": 3.0, "j": -2.0}
 var c11Time = time.Date(2022, 5, 6, 7, 8, 9, 0, time.UTC)
@@ -220,6 +223,8 @@ func init() {
 		argv{kind: "arr", goTyped: true, expr: "rc.f64s", elems: []argv{{kind: "num", num: "1.5"}, {kind: "num", num: "-2.5"}}},
 		argv{kind: "arr", goTyped: true, expr: "rc.anys", elems: []argv{{kind: "num", num: "4"}, {kind: "num", num: "7.5"}, {kind: "num", num: "9007199254740993"}}},
 		argv{kind: "time", expr: "tml"},
+		argv{kind: "map", expr: "mpn", withNil: true},
+		argv{kind: "arr", expr: "[mpn, mp]", elems: []argv{{kind: "map", withNil: true}, {kind: "map"}}},
 		// the same (non-cyclic) object more than once inside an argument
 		argv{kind: "arr", expr: "[mp, mp]", elems: []argv{{kind: "map"}, {kind: "map"}}},
 		argv{kind: "arr", expr: "($al = [1, 2], [$al, $al])", elems: []argv{{kind: "arr", elems: []argv{{kind: "num", num: "1"}, {kind: "num", num: "2"}}}, {kind: "arr", elems: []argv{{kind: "num", num: "1"}, {kind: "num", num: "2"}}}}},
@@ -452,6 +457,9 @@ func row(pk int, a argv) (int, interface{}) {
 			}
 			return vD, w
 		case "map":
+			if a.withNil {
+				return vD, identWant{c11MapNil}
+			}
 			return vD, identWant{c11Map}
 		case "time":
 			return vD, c11Time
@@ -498,6 +506,13 @@ func row(pk int, a argv) (int, interface{}) {
 		case "null":
 			return vU, nil
 		case "map":
+			if a.withNil {
+				// the entry is handed over with its key (a nil element); what a nil becomes as an int is not stated
+				if pk == pkMapIface {
+					return vD, map[string]interface{}{"k": 3.0, "z": nil}
+				}
+				return vU, nil
+			}
 			if pk == pkMapIface {
 				return vD, map[string]interface{}{"k": 3.0, "j": -2.0}
 			}
@@ -757,7 +772,7 @@ func judgeCall(c CallCase) *eng.Fail {
 		return eng.F("C11/parse", "%s: %v", src, err)
 	}
 	invocations = invocations[:0]
-	data := map[string]interface{}{"host": makeHost(c.Fixed, c.Tail, c.Ctx, c.Ret), "mp": c11Map, "tm": c11Time,
+	data := map[string]interface{}{"host": makeHost(c.Fixed, c.Tail, c.Ctx, c.Ret), "mp": c11Map, "mpn": c11MapNil, "tm": c11Time,
 		"rc": map[string]interface{}{"nilsl": []string(nil), "nilany": []interface{}(nil), "ints": []int{65, 66}, "strs": []string{"p", "q"}, "twice": []map[string]interface{}{c11Map, c11Map},
 			"wide": []int{300, 1}, "i32s": []int32{72, 105}, "f64s": []float64{1.5, -2.5}, "anys": []interface{}{4, 7.5, int64(9007199254740993)}, "inl": c11Inline(), "selfp": c11SelfPtr(), "hid": c11Hidden{p: &c11HiddenTarget, N: 3}}, "np": (*int)(nil), "rcx": c11RC, "tml": c11TimeLocal,
 		"g": map[string]interface{}{"n16": int16(300), "u8": uint8(200), "u64": uint64(1) << 63, "i8": int8(-1), "dur": time.Duration(1500), "cel": c11Celsius(2.5), "celbig": c11Celsius(1e30), "u32": uint32(70000)}}
